@@ -25,11 +25,11 @@ RULE = (
     "cache fills before taking the id, a second process with another PYTHONHASHSEED (batched) -> ids equal, == true, list "
     "membership true. (ii) minimally different content: one metadata value / key, one unit label, material name or "
     "property, adsorbate, temperature, one data value changed by 1e-6, one branch mark, one extra-column value, one model "
-    "parameter, model name, model range -> ids differ. Every pair is non-trivial; distinct by (route or field, descriptor)."
+    "parameter, model name, model range, two different rows exchanged -> ids differ. Every pair is non-trivial; distinct by (route or field, descriptor)."
 )
 ASSUMPTIONS = [
     "data values are kept on a 1e-6 grid so that the documented 8-decimal rounding is unambiguous",
-    "order of the data points is not varied (the property does not say whether a reordering is a content change)",
+    "exchanging two different whole rows is treated as a content change (the sequence of measured points is content)",
 ]
 
 
@@ -190,7 +190,7 @@ def check_same(desc, ctx):
 # ---- minimally different content -----------------------------------------------------------------------------------------
 FIELDS = ["meta_value", "meta_key", "pressure_unit", "pressure_mode", "loading_unit", "loading_basis", "material_unit",
           "material_basis", "temperature_unit", "material_name", "material_prop", "adsorbate", "temperature",
-          "pressure_value", "loading_value", "branch_mark", "extra_value", "point_added"]
+          "pressure_value", "loading_value", "branch_mark", "extra_value", "point_added", "rows_exchanged"]
 
 
 def strat_diff():
@@ -276,6 +276,18 @@ def check_diff(desc, ctx):
         e["branch"].append(e["branch"][-1])
         for col in e.get("extra", {}):
             e["extra"][col].append(e["extra"][col][-1])
+    elif f == "rows_exchanged":
+        # two whole rows (pressure, loading, branch mark, extra values) exchange their positions: the sequence of data
+        # points is different content (measurement order) although the multiset of rows is the same
+        if n < 2:
+            return
+        i = k % n
+        j = (i + 1 + (k // n) % (n - 1)) % n
+        row = lambda t: (e["pressure"][t], e["loading"][t], e["branch"][t], [e["extra"][c][t] for c in sorted(e.get("extra", {}))])  # noqa
+        if row(i) == row(j):
+            return
+        for seq in [e["pressure"], e["loading"], e["branch"]] + [e["extra"][c] for c in e.get("extra", {})]:
+            seq[i], seq[j] = seq[j], seq[i]
     b = K.build_point(e)
     if a.iso_id == b.iso_id:
         raise Violation(f"content differs in {f} but the ids are equal ({a.iso_id}): {json.dumps(d, default=str)[:300]} vs changed "
